@@ -89,32 +89,25 @@ def cexpected : List (Nat × Key) :=
   [(30, exp30), (41, exp41), (42, exp42), (43, exp43), (44, exp44), (45, exp45), (46, exp46), (47, exp47),
    (48, exp48), (49, exp49), (50, exp50)]
 
-/-- the side-condition: the markup-declaration-open state and the ten comment states are the expected
-ones (and the data / tag-open states and byte classes are those of `TagStatesOk`) -/
+/-- the side-condition: the markup-declaration-open state and the ten comment states resolve like the expected
+ones (`stateMatches`, `Lemmas/ArmResolve.lean`: same enter actions, needle and sequence arms, and for every input class
+the first matching arm has the same kind and body — the order of arms with disjoint patterns does not matter), and the
+data / tag-open states and byte classes are those of `TagStatesOk` -/
 def CommentStatesOk (t : Table) : Bool :=
-  cexpected.all (fun e => (t.state? e.1).map keyOf == some e.2) && TagStatesOk t
+  cexpected.all (stateMatches t) && TagStatesOk t
 
-/-- diagnostics: (state name, index of the first differing arm; 1000 = enter/memchr, 2000 = missing) -/
+/-- diagnostics: (state name, code) as for `tagStatesWitness`: 1000 = enter/memchr, 2000 = missing, 3000 = sequence
+arms, otherwise the first input class that resolves differently -/
 def commentStatesWitness (t : Table) : List (String × Nat) :=
-  cexpected.filterMap fun e =>
-    match t.state? e.1 with
-    | none => some (s!"state {e.1} missing", 2000)
-    | some sd =>
-      if keyOf sd == e.2 then none
-      else if sd.enter != e.2.1 || sd.memchr != e.2.2.1 then some (sd.name, 1000)
-      else some (sd.name, ((sd.arms.zip e.2.2.2).takeWhile fun p => p.1 == p.2).length)
+  cexpected.filterMap (stateWitness t)
 
 theorem cstate_of_ok {t : Table} (h : CommentStatesOk t = true) {s : Nat} {k : Key} (hm : (s, k) ∈ cexpected) :
-    ∃ sd, t.state? s = some sd ∧ sd.enter = k.1 ∧ sd.memchr = k.2.1 ∧ sd.arms = k.2.2 := by
+    ∃ sd, t.state? s = some sd ∧ sd.enter = k.1 ∧ sd.memchr = k.2.1 ∧
+      (∀ {κ : Type} (env : Env κ), env.tbl = t → ∀ (inp : Bytes) (ch : Option UInt8) (m : M κ),
+        dispatch env inp ch sd.arms m = dispatch env inp ch k.2.2 m) := by
   unfold CommentStatesOk at h
   simp only [Bool.and_eq_true, List.all_eq_true] at h
-  have := h.1 _ hm
-  simp only [beq_iff_eq] at this
-  cases hs : t.state? s with
-  | none => simp [hs] at this
-  | some sd =>
-    simp only [hs, Option.map_some, Option.some.injEq] at this
-    refine ⟨sd, rfl, ?_, ?_, ?_⟩ <;> simp [← this, keyOf]
+  exact state_of_matches (h.1 _ hm)
 
 theorem tagOk_of_ok {t : Table} (h : CommentStatesOk t = true) : TagStatesOk t = true := by
   unfold CommentStatesOk at h
